@@ -22,6 +22,7 @@ import Driver.Shapes
 import Driver.SpecFmt
 import Driver.Threads
 import Driver.UsingSalt
+import Driver.UsingMisc
 import Driver.Saslprep
 import Driver.VerifyFmtPbkdf
 import Driver.VerifyFmtMisc
@@ -63,6 +64,7 @@ def dispatch (line : String) : String :=
   | "sfmt" :: rest => Driver.SpecFmt.handle rest
   | "threads" :: rest => Driver.Threads.handle rest
   | "usalt" :: rest => Driver.UsingSalt.handle rest
+  | "umisc" :: rest => Driver.UsingMisc.handle rest
   | "sasl" :: rest => Driver.Saslprep.handle rest
   | "vfyP" :: rest => Driver.VerifyFmtPbkdf.handle rest
   | "vfyM" :: rest => Driver.VerifyFmtMisc.handle rest
